@@ -55,11 +55,11 @@ theorem powModAux_spec (m : Nat) : ∀ (fuel b e acc : Nat), e < 2 ^ fuel →
 
 /-- `Secp.powMod` is modular exponentiation (exponents below 2^600, modulus > 1) -/
 theorem powMod_spec (b e m : Nat) (he : e < 2 ^ 256) (hm : 1 < m) : powMod b e m = b ^ e % m := by
-  have he : e < 2 ^ 600 := Nat.lt_of_lt_of_le he (Nat.pow_le_pow_right (by decide) (by decide))
   have hlt : powMod b e m < m := powMod_lt b e m hm
   rw [← Nat.mod_eq_of_lt hlt]
   unfold powMod
-  rw [powModAux_spec m 600 (b % m) e (1 % m) he, Nat.mod_eq_of_lt hm, Nat.one_mul, ← Nat.pow_mod]
+  rw [powModAux_spec m 600 (b % m) e (1 % m)
+    (Nat.lt_of_lt_of_le he (Nat.pow_le_pow_right (by decide) (by decide : 256 ≤ 600))), Nat.mod_eq_of_lt hm, Nat.one_mul, ← Nat.pow_mod]
 
 theorem powMod_cast (q : Nat) (hq : 1 < q) (b e : Nat) (he : e < 2 ^ 256) :
     ((powMod b e q : Nat) : ZMod q) = (b : ZMod q) ^ e := by
